@@ -52,6 +52,13 @@ def lower_cum_extrema(ctx: Any, eqn: Any, *, mode: str) -> None:
     if axis < 0 or axis >= rank:
         raise ValueError(f"cum{mode} axis {axis_param} out of range for rank {rank}")
 
+    x_dtype = getattr(getattr(x_var, "aval", None), "dtype", None)
+    if x_dtype is not None and not np.issubdtype(np.dtype(x_dtype), np.floating):
+        # the lowering goes through MaxPool, which is defined for floating tensors only
+        raise TypeError(
+            f"cum{mode} currently supports floating operand dtypes only, got '{x_dtype}'"
+        )
+
     axis_extent = x_shape[axis]
     if not isinstance(axis_extent, (int, np.integer)):
         raise NotImplementedError(
